@@ -81,7 +81,7 @@ fn state_hash(xs: &Xstate) -> u64 {
     f.get()
 }
 
-fn full_hash(xs: &Xstate) -> u64 {
+pub fn full_hash(xs: &Xstate) -> u64 {
     let d = xs.verif_dump();
     let mut f = Fnv::new();
     f.u64(dump_hash(&d));
@@ -323,7 +323,12 @@ impl<'a> World<'a> {
             st.insns += 1;
             match res {
                 Err(e) => {
-                    // what a REPL user does next: run(), which gives up on the failed line
+                    // what a REPL user does next: run(). It resumes at the failed instruction, so it
+                    // may run on for long; the watchdog is re-armed first, otherwise a replica that
+                    // stepped back and forth (rnext does not give instructions back to the meter)
+                    // would be cut off earlier than its sibling and look different for the harness's
+                    // own reason.
+                    self.live[r].xs.set_insn_limit(Some(LIMIT)).unwrap();
                     let _ = self.live[r].xs.run();
                     return self.finished(r, &Err(e), st);
                 }
